@@ -150,14 +150,12 @@ def branchOf (n colors : Nat) (ops : List Op) : String :=
   let b := fun (c : String) (x : Bool) => if x then c else "-"
   b "r" r ++ b "s" s ++ b "m" m ++ b "g" g
 
-def step (line : String) : String :=
-  match Sexp.parse line with
-  | some (.list [.atom "seq", .list [n, c, .list ops], pyout]) =>
+def stepWith (fixed : Bool) (n c : Sexp) (ops : List Sexp) (pyout : Sexp) : String :=
     match n.toNat?, c.toNat?, ops.mapM opOf? with
     | some n, some colors, some ops =>
       -- model trace: initial state and the state after every op
       let states := (ops.foldl (fun (acc : List State × State) op =>
-          let st' := Impl.step acc.2 op
+          let st' := Collection.step fixed acc.2 op
           (acc.1 ++ [st'], st')) ([init n colors], init n colors)).1
       -- canonical names, threaded through the trace
       let snaps := (states.foldl (fun (acc : List Sexp × Ren) st =>
@@ -169,6 +167,14 @@ def step (line : String) : String :=
         | _ => false
       driverResult (.list snaps) ok implok true (branchOf n colors ops)
     | _, _, _ => driverError "seq-args"
+
+/-- `seq`: the model of the current code (`Impl`).  `seqold`: the model of the code before
+`fix: F3-remove-data-detach` (`Old`), used once, by hand, against the unfixed tree to validate the
+`Old` model that the witnesses in `Props/C06.lean` are about (see props.d/C06/design.md). -/
+def step (line : String) : String :=
+  match Sexp.parse line with
+  | some (.list [.atom "seq", .list [n, c, .list ops], pyout]) => stepWith true n c ops pyout
+  | some (.list [.atom "seqold", .list [n, c, .list ops], pyout]) => stepWith false n c ops pyout
   | _ => driverError "unknown-family"
 
 def main : IO Unit := driverLoop step
